@@ -29,7 +29,7 @@ from common import (
 # --------------------------------------------------------------------------
 LIMIT_ERRS = {
     "durTooShort", "durTooLong", "notResizable", "ampOverMax", "detOverMax", "avgAmpLow",
-    "dmmPositive", "dmmBottom", "dmmTotalBottom", "overMaxSeq",
+    "dmmPositive", "dmmBottom", "dmmTotalBottom", "overMaxSeq", "nonFinite",
 }
 TYPESTATE_ERRS = {
     "measured", "nameInUse", "notAvailable", "xyConflict", "notDeclared", "inEom", "notInEom",
